@@ -49,4 +49,598 @@ theorem prefix_of_length_eq {d c : Bytes} (h : d <+: c) (hl : d.length = c.lengt
     | cons a t => simp at hl
   simp [this]
 
+
+/-! ## the prefix form of the invariant (C11): lemmas as in GIV.Lemmas.CachePutFS -/
+
+/-- clause (D⁺): a data file is a PREFIX of the content with its hash (fault-free runs); clause (I) as before. -/
+def FileOKp (P : Params Id Hsh) (offered : Bytes → Prop) : Name Id Hsh → Bytes → Prop
+  | .data h, d => ∀ c, offered c → P.H c = h → d <+: c
+  | .index id, d => d = [] ∨ ∃ c t, offered c ∧ d = P.enc id (P.H c) c.length t
+
+/-- the invariant, possibly exempting ONE name (a file that a running Put is bound to truncate or remove). -/
+def FSInvPExc (P : Params Id Hsh) (offered : Bytes → Prop) (fs : FS Id Hsh) (ex : Option (Name Id Hsh)) : Prop :=
+  Struct fs ∧ ∀ p i nd, some p ≠ ex → fs.names p = some i → fs.inodes i = some nd → FileOKp P offered p nd.data
+
+/-- `CacheInv`: clauses (D) and (I) for every file. -/
+def FSInvP (P : Params Id Hsh) (offered : Bytes → Prop) (fs : FS Id Hsh) : Prop := FSInvPExc P offered fs none
+
+theorem FSInvP.exc {P : Params Id Hsh} {offered : Bytes → Prop} {fs : FS Id Hsh} (h : FSInvP P offered fs)
+    (ex : Option (Name Id Hsh)) : FSInvPExc P offered fs ex :=
+  ⟨h.1, fun p i nd _ hn hi => h.2 p i nd (by simp) hn hi⟩
+
+/-- the exempted file is fine too: the full invariant. -/
+theorem FSInvPExc.full {P : Params Id Hsh} {offered : Bytes → Prop} {fs : FS Id Hsh} {q : Name Id Hsh}
+    (h : FSInvPExc P offered fs (some q))
+    (hq : ∀ i nd, fs.names q = some i → fs.inodes i = some nd → FileOKp P offered q nd.data) :
+    FSInvP P offered fs := by
+  refine ⟨h.1, fun p i nd _ hn hi => ?_⟩
+  by_cases hp : p = q
+  · subst hp; exact hq i nd hn hi
+  · exact h.2 p i nd (by simpa using hp) hn hi
+
+theorem SameFiles.invp {P : Params Id Hsh} {offered : Bytes → Prop} {fs fs' : FS Id Hsh} {ex : Option (Name Id Hsh)}
+    (h : SameFiles fs fs') (hi : FSInvPExc P offered fs ex) : FSInvPExc P offered fs' ex := by
+  obtain ⟨h1, h2, h3⟩ := h
+  refine ⟨⟨?_, ?_⟩, ?_⟩
+  · intro p i hn; rw [h1] at hn; rw [h2]; exact hi.1.named p i hn
+  · intro i nd hn; rw [h2] at hn; rw [h3]; exact hi.1.bound i nd hn
+  · intro p i nd hp hn hino; rw [h1] at hn; rw [h2] at hino; exact hi.2 p i nd hp hn hino
+
+
+theorem fileOKp_nil (P : Params Id Hsh) (offered : Bytes → Prop) (p : Name Id Hsh) : FileOKp P offered p [] := by
+  cases p with
+  | data h => intro c _ _; exact List.nil_prefix
+  | index id => left; rfl
+
+
+/-- the data of the inode linked at `q` changes; `q` stays exempted. -/
+theorem invp_setData_exc {P : Params Id Hsh} {offered : Bytes → Prop} {fs : FS Id Hsh} {q : Name Id Hsh} {i : Nat}
+    {nd : Inode Id Hsh} (d' : Bytes) (h : FSInvPExc P offered fs (some q)) (hn : fs.names q = some i)
+    (hi : fs.inodes i = some nd) :
+    FSInvPExc P offered (fs.setInode i { nd with data := d' }) (some q) := by
+  refine ⟨⟨?_, ?_⟩, ?_⟩
+  · intro p j hp
+    simp only [FS.setInode] at hp ⊢
+    by_cases hj : j = i
+    · subst hj
+      obtain ⟨nd', h1, h2⟩ := h.1.named p j hp
+      rw [hi] at h1; cases h1
+      exact ⟨{ nd with data := d' }, by simp, h2⟩
+    · simpa [hj] using h.1.named p j hp
+  · intro j nd' hj
+    simp only [FS.setInode] at hj ⊢
+    by_cases hji : j = i
+    · subst hji; exact h.1.bound j nd hi
+    · simp [hji] at hj; exact h.1.bound j nd' hj
+  · intro p j nd' hp hpn hj
+    simp only [FS.setInode] at hpn hj
+    by_cases hji : j = i
+    · subst hji
+      obtain ⟨nd1, h1, h2⟩ := h.1.named p j hpn
+      obtain ⟨nd2, h3, h4⟩ := h.1.named q j hn
+      rw [h1] at h3; cases h3
+      exact absurd (h2.symm.trans h4) (by simpa using hp)
+    · simp [hji] at hj; exact h.2 p j nd' hp hpn hj
+
+/-- the data of the inode linked at `q` changes to something acceptable. -/
+theorem invp_setData {P : Params Id Hsh} {offered : Bytes → Prop} {fs : FS Id Hsh} {q : Name Id Hsh} {i : Nat}
+    {nd : Inode Id Hsh} (d' : Bytes) (h : FSInvPExc P offered fs (some q)) (hn : fs.names q = some i)
+    (hi : fs.inodes i = some nd) (hd : FileOKp P offered q d') :
+    FSInvP P offered (fs.setInode i { nd with data := d' }) := by
+  refine (invp_setData_exc d' h hn hi).full ?_
+  intro j nd' hj hnd
+  simp only [FS.setInode] at hj hnd
+  rw [hn] at hj; cases hj
+  simp at hnd; subst hnd
+  exact hd
+
+theorem invp_setFd {P : Params Id Hsh} {offered : Bytes → Prop} {fs : FS Id Hsh} {ex : Option (Name Id Hsh)}
+    (fd : Nat) (o : Option OFD) (h : FSInvPExc P offered fs ex) : FSInvPExc P offered (fs.setFd fd o) ex :=
+  SameFiles.invp (fs := fs) ⟨rfl, rfl, rfl⟩ h
+
+theorem invp_closeProc {P : Params Id Hsh} {offered : Bytes → Prop} {fs : FS Id Hsh} {ex : Option (Name Id Hsh)}
+    (proc : Nat) (h : FSInvPExc P offered fs ex) : FSInvPExc P offered (fs.closeProc proc) ex :=
+  SameFiles.invp (fs := fs) ⟨rfl, rfl, rfl⟩ h
+
+/-- `unlink q`: afterwards nothing is exempted. -/
+theorem invp_unlink {P : Params Id Hsh} {offered : Bytes → Prop} {fs : FS Id Hsh} {q : Name Id Hsh}
+    (h : FSInvPExc P offered fs (some q)) :
+    FSInvP P offered { fs with names := fun p => if p = q then none else fs.names p } := by
+  refine ⟨⟨?_, ?_⟩, ?_⟩
+  · intro p i hp
+    simp only at hp ⊢
+    by_cases hpq : p = q
+    · simp [hpq] at hp
+    · simp [hpq] at hp; exact h.1.named p i hp
+  · intro i nd hi; exact h.1.bound i nd hi
+  · intro p i nd _ hp hi
+    simp only at hp hi
+    by_cases hpq : p = q
+    · simp [hpq] at hp
+    · simp [hpq] at hp; exact h.2 p i nd (by simpa using hpq) hp hi
+
+/-- `open(q, O_CREATE)` of a missing name: a new empty file. -/
+theorem invp_create {P : Params Id Hsh} {offered : Bytes → Prop} {fs : FS Id Hsh} {ex : Option (Name Id Hsh)}
+    (q : Name Id Hsh) (h : FSInvPExc P offered fs ex) (hq : fs.names q = none) :
+    FSInvPExc P offered { fs with names := fun p => if p = q then some fs.nextIno else fs.names p, inodes := fun j => if j = fs.nextIno then some ⟨q, []⟩ else fs.inodes j, nextIno := fs.nextIno + 1 } ex := by
+  have fresh : ∀ p, fs.names p ≠ some fs.nextIno := by
+    intro p hp
+    obtain ⟨nd, h1, _⟩ := h.1.named p _ hp
+    exact absurd (h.1.bound _ nd h1) (by omega)
+  refine ⟨⟨?_, ?_⟩, ?_⟩
+  · intro p i hp
+    simp only at hp ⊢
+    by_cases hpq : p = q
+    · simp [hpq] at hp; subst hp; exact ⟨⟨q, []⟩, by simp, hpq.symm⟩
+    · simp [hpq] at hp
+      have : i ≠ fs.nextIno := fun e => fresh p (e ▸ hp)
+      simpa [this] using h.1.named p i hp
+  · intro i nd hi
+    simp only at hi ⊢
+    by_cases hin : i = fs.nextIno
+    · omega
+    · simp [hin] at hi; have := h.1.bound i nd hi; omega
+  · intro p i nd hpe hp hi
+    simp only at hp hi
+    by_cases hpq : p = q
+    · simp [hpq] at hp; subst hp; simp at hi; subst hi; subst hpq; exact fileOKp_nil P offered p
+    · simp [hpq] at hp
+      have : i ≠ fs.nextIno := fun e => fresh p (e ▸ hp)
+      simp [this] at hi
+      exact h.2 p i nd hpe hp hi
+
+
+variable {P : Params Id Hsh} {offered : Bytes → Prop} {now : Int} {id : Id} {s : Src}
+  {fs fs' : FS Id Hsh} {proc n : Nat} {fault : Fault} {r : Res} {nx : Next Hsh}
+
+/-- `open(q, O_CREATE [|O_TRUNC])`: a descriptor at offset 0 on the file linked at `q`, which is empty
+(created or truncated) or the file that was there. -/
+theorem open_create_specp {q : Name Id Hsh} {m : Mode} {trunc : Bool} (hinv : FSInvP P offered fs)
+    (hs : execOk fs proc (.open q m true trunc) = some (fs', r)) :
+    FSInvP P offered fs' ∧ ∃ i nd', r = .okFd fs.nextFd ∧ fs'.fds fs.nextFd = some ⟨i, 0, proc⟩ ∧
+      fs'.names q = some i ∧ fs'.inodes i = some nd' ∧
+      (nd'.data = [] ∨ (trunc = false ∧ fs.names q = some i ∧ fs.inodes i = some nd')) := by
+  simp only [execOk] at hs
+  cases hnm : fs.names q with
+  | none =>
+    simp [hnm, FS.newFd] at hs
+    obtain ⟨rfl, rfl⟩ := hs
+    have h1 := invp_create q hinv hnm
+    refine ⟨SameFiles.invp ?_ h1, fs.nextIno, ⟨q, []⟩, rfl, by simp, by simp, by simp, Or.inl rfl⟩
+    exact ⟨rfl, rfl, rfl⟩
+  | some i =>
+    obtain ⟨nd, hnd, _⟩ := hinv.1.named _ _ hnm
+    cases trunc with
+    | false =>
+      simp [hnm, hnd, FS.newFd] at hs
+      obtain ⟨rfl, rfl⟩ := hs
+      refine ⟨SameFiles.invp ?_ hinv, i, nd, rfl, by simp, by simpa using hnm, by simpa using hnd, Or.inr ⟨rfl, rfl, hnd⟩⟩
+      exact ⟨rfl, rfl, rfl⟩
+    | true =>
+      simp [hnm, hnd, FS.newFd] at hs
+      obtain ⟨rfl, rfl⟩ := hs
+      have h1 := invp_setData [] (hinv.exc _) hnm hnd (fileOKp_nil P offered q)
+      refine ⟨SameFiles.invp ?_ h1, i, { nd with data := [] }, rfl, by simp [FS.setInode], ?_, ?_, Or.inl rfl⟩
+      · exact ⟨rfl, rfl, rfl⟩
+      · simpa [FS.setInode] using hnm
+      · simp [FS.setInode]
+
+
+/-! ## the local state of a fault-free writer with a well-behaved source -/
+
+/-- the source reader delivers the same bytes on both passes and does not fail. -/
+def GoodSrc (s : Src) : Prop := s.ok1 = true ∧ s.seek2 = true ∧ s.data2 = s.data1
+
+section
+variable (P : Params Id Hsh) (offered : Bytes → Prop) (id : Id) (s : Src) (fs : FS Id Hsh)
+
+/-- copying: `fd` is open on the data file at an offset inside it; `rest` is what remains to be copied. -/
+def WStC (fd : Nat) (rest : Bytes) : Prop :=
+  ∃ o nd, fs.fds fd = some o ∧ fs.names (.data (putOut P s)) = some o.ino ∧ fs.inodes o.ino = some nd ∧
+    o.off ≤ nd.data.length ∧ nd.data.take o.off ++ rest = s.data1.take s.first
+
+/-- what a fault-free `Put(id, s)` knows at each program point (error paths are unreachable). -/
+def LocalC : PC Hsh → Prop
+  | .pCkOpen L => L ≤ s.size
+  | .pCkRead _ _ L => L ≤ s.size
+  | .pCkClose _ _ L => L ≤ s.size
+  | .pOpen trunc => trunc = false
+  | .pWrite fd rest => s.size ≠ 0 ∧ rest ≠ [] ∧ WStC P s fs fd rest
+  | .pCommit fd checked => s.size ≠ 0 ∧ checked = true ∧ WStC P s fs fd []
+  | .pClose fd => ∃ o, fs.fds fd = some o
+  | .pTrunc0 _ => False
+  | .pRemoveData _ => False
+  | .pDeferClose _ ok => ok = true
+  | .iWrite fd => ∃ o, fs.fds fd = some o ∧ o.off = 0 ∧ fs.names (.index id) = some o.ino
+  | .iTrunc fd => ∃ o nd, fs.fds fd = some o ∧ fs.names (.index id) = some o.ino ∧ fs.inodes o.ino = some nd ∧
+      nd.data.length = Gen.CachePut.entrySize
+  | .iClose fd err => err = false ∧ ∃ o, fs.fds fd = some o
+  | .iRemove => False
+  | .pStat => True
+  | .pReuseStat => True
+  | .pReuseChtimes => True
+  | .pChtimes _ => True
+  | .iOpen => True
+  | .iChtimes => True
+  | _ => False
+end
+
+
+def PostC (P : Params Id Hsh) (id : Id) (s : Src) (fs' : FS Id Hsh) : Next Hsh → Prop
+  | .goto pc' => LocalC P id s fs' pc'
+  | .done _ => True
+
+theorem fileOKp_data (hy : Hyps P offered) (hoff : offered s.data1) {d : Bytes} (h : d <+: s.data1) :
+    FileOKp P offered (.data (putOut P s)) d := by
+  intro c hc hh
+  have : s.data1 = c := hy.noColl c s.data1 hc (by simpa [putOut] using hh.symm)
+  rw [← this]; exact h
+
+theorem good_size (hg : GoodSrc s) : s.data2.length = s.size := by rw [hg.2.2]; rfl
+
+theorem postC_afterCopyN (hg : GoodSrc s) (hsz : s.size ≠ 0) {fd : Nat} (h : WStC P s fs' fd []) :
+    PostC P id s fs' (afterCopyN P s fd) := by
+  have hf := first_lt hsz
+  have hlen := good_size hg
+  have hsize : s.data1.length = s.size := rfl
+  have hfs : s.first = s.size - 1 := by simp [Src.first, Gen.CachePut.firstLen]
+  have hfull : s.data2.take (s.first + 1) = s.data1 := by
+    rw [hg.2.2]; apply List.take_of_length_le; omega
+  unfold afterCopyN
+  simp only [Gen.CachePut.checkBeforeLastByte, Gen.CachePut.underfoot, if_true, hfull, putOut]
+  rw [if_neg (by omega), if_neg (by omega)]
+  simp only [decide_true, Bool.not_true, Bool.false_eq_true, if_false, PostC, LocalC]
+  exact ⟨hsz, trivial, h⟩
+
+theorem postC_writeOrNext (hg : GoodSrc s) (hsz : s.size ≠ 0) {fd : Nat} {rest : Bytes} (h : WStC P s fs' fd rest) :
+    PostC P id s fs' (writeOrNext P s fd rest) := by
+  unfold writeOrNext
+  split
+  · next hr => subst hr; exact postC_afterCopyN hg hsz h
+  · next hr => exact ⟨hsz, hr, h⟩
+
+/-- a write of the next bytes of the content through a descriptor positioned inside a prefix file. -/
+theorem cwrite (hy : Hyps P offered) (hoff : offered s.data1) (hinv : FSInvP P offered fs) {fd : Nat} {rest : Bytes} {k : Nat}
+    (hw : WStC P s fs fd rest) (he : execOk fs proc (.write fd (rest.take k)) = some (fs', r)) :
+    FSInvP P offered fs' ∧ WStC P s fs' fd (rest.drop k) := by
+  obtain ⟨o, nd, h1, h2, h3, h4, h5⟩ := hw
+  obtain ⟨o', nd', g1, g2, rfl, rfl⟩ := write_spec he
+  rw [h1] at g1; cases g1
+  rw [h3] at g2; cases g2
+  have hpre : nd.data <+: s.data1 := hinv.2 _ _ _ (by simp) h2 h3 s.data1 hoff rfl
+  -- the bytes written are the bytes of the content at the descriptor's offset
+  have hrestEq : rest = (s.data1.drop o.off).take (s.first - o.off) := by
+    have h6 := congrArg (List.drop o.off) h5
+    have hl : (nd.data.take o.off).length = o.off := by simp; omega
+    rw [List.drop_append_of_le_length (by omega), List.drop_eq_nil_of_le (by omega), List.nil_append] at h6
+    rw [h6, List.drop_take]
+  have hbs : rest.take k = (s.data1.drop o.off).take (min k (s.first - o.off)) := by
+    rw [hrestEq, List.take_take]
+  have hwp := writeAt_prefix (k := min k (s.first - o.off)) hpre h4
+  rw [← hbs] at hwp
+  refine ⟨invp_setFd _ _ (invp_setData _ (hinv.exc _) h2 h3 (fileOKp_data hy hoff hwp.1)), ?_⟩
+  refine ⟨{ o with off := o.off + (rest.take k).length }, { nd with data := writeAt nd.data o.off (rest.take k) },
+    by simp [FS.setFd], ?_, ?_, ?_, ?_⟩
+  · simpa [FS.setFd, FS.setInode] using h2
+  · simp [FS.setFd, FS.setInode]
+  · show o.off + (rest.take k).length ≤ (writeAt nd.data o.off (rest.take k)).length
+    rw [writeAt_length _ _ _ h4]; omega
+  · show List.take (o.off + (rest.take k).length) (writeAt nd.data o.off (rest.take k)) ++ rest.drop k = _
+    rw [writeAt_take _ _ _ h4, List.append_assoc, List.take_append_drop, h5]
+
+theorem close_open_ok {fd : Nat} {o : OFD} (h : fs.fds fd = some o) (he : execOk fs proc (.close fd) = some (fs', r)) :
+    r = .ok ∧ SameFiles fs fs' := by
+  simp [execOk, h] at he
+  obtain ⟨rfl, rfl⟩ := he
+  exact ⟨rfl, rfl, rfl, rfl⟩
+
+theorem trunc_le_false {L : Nat} (h : L ≤ s.size) : Gen.CachePut.dataOpenTrunc true L s.size = false := by
+  simp [Gen.CachePut.dataOpenTrunc]; omega
+
+/-- **One fault-free step of a writer with a well-behaved source** keeps every data file a prefix of
+the content with its hash, and leads to a program point where the writer's local facts hold again. -/
+theorem put_cstep (hy : Hyps P offered) (hg : GoodSrc s) (hoff : offered s.data1)
+    (hinv : FSInvP P offered fs) {pc : PC Hsh} (hL : LocalC P id s fs pc)
+    (hs : tstep P now fs proc (.put id s) pc .none n = some (fs', r, nx)) :
+    FSInvP P offered fs' ∧ PostC P id s fs' nx := by
+  obtain ⟨he, rfl⟩ := tstep_eq hs
+  simp only [exec] at he
+  cases pc <;> simp only [LocalC] at hL <;> simp only [sysOf] at he
+  case pStat =>
+    obtain ⟨rfl, hcase⟩ := stat_spec he
+    refine ⟨hinv, ?_⟩
+    rcases hcase with ⟨_, rfl⟩ | ⟨i, nd, h1, h2, rfl⟩
+    · simp [next, PostC, LocalC, Gen.CachePut.dataOpenTrunc]
+    · have hle : nd.data.length ≤ s.size := prefix_length_le (hinv.2 _ _ _ (by simp) h1 h2 s.data1 hoff rfl)
+      simp only [next, Gen.CachePut.reuseCheck, Bool.true_and, decide_eq_true_eq]
+      split
+      · exact hle
+      · exact trunc_le_false hle
+  case pCkOpen L =>
+    have hsame := exec_open_ro_same (fault := .none) (by simpa [exec] using he)
+    refine ⟨hsame.invp hinv, ?_⟩
+    cases r <;> simp only [next, PostC, LocalC] <;> first | exact hL | exact trunc_le_false hL
+  case pCkRead fd acc L =>
+    have hsame := exec_read_same (fault := .none) (by simpa [exec] using he)
+    refine ⟨hsame.invp hinv, ?_⟩
+    cases r <;> simp only [next, PostC, LocalC] <;> exact hL
+  case pCkClose fd acc L =>
+    have hsame := exec_close_same (fault := .none) (by simpa [exec] using he)
+    refine ⟨hsame.invp hinv, ?_⟩
+    simp only [next, Gen.CachePut.copyReuseRefreshes, if_true]
+    split
+    · trivial
+    · exact trunc_le_false hL
+  case pReuseStat =>
+    have hsame := exec_stat_same (fault := .none) (by simpa [exec] using he)
+    refine ⟨hsame.invp hinv, ?_⟩
+    simp only [next, copyOk, Gen.CachePut.indexAfterCopy, if_true]
+    split <;> trivial
+  case pReuseChtimes =>
+    have hsame := exec_chtimes_same (fault := .none) (by simpa [exec] using he)
+    exact ⟨hsame.invp hinv, by simp [next, copyOk, Gen.CachePut.indexAfterCopy, PostC, LocalC]⟩
+  case pOpen trunc =>
+    subst hL
+    obtain ⟨hinv', i, nd', rfl, hfd, hnm, hnd, _⟩ := open_create_specp hinv he
+    refine ⟨hinv', ?_⟩
+    simp only [next, Gen.CachePut.emptyReturn, Gen.CachePut.truncOnSeekErr, decide_eq_true_eq]
+    by_cases hsz : s.size = 0
+    · simp [hsz, PostC, LocalC]
+    · simp only [hsz, if_false, hg.2.1, Bool.not_true, Bool.false_eq_true]
+      apply postC_writeOrNext hg hsz
+      exact ⟨⟨i, 0, proc⟩, nd', hfd, hnm, hnd, Nat.zero_le _, by simp [Src.copyBytes, Gen.CachePut.copyNBeforeCheck, hg.2.2]⟩
+  case pWrite fd rest =>
+    obtain ⟨hsz, hne, hw⟩ := hL
+    have hr : r = .okN (rest.take (chunk n)).length := by
+      obtain ⟨_, _, _, _, _, h⟩ := write_spec he; exact h
+    obtain ⟨hinv', hw'⟩ := cwrite hy hoff hinv hw he
+    refine ⟨hinv', ?_⟩
+    subst hr
+    simp only [next]
+    exact postC_writeOrNext hg hsz hw'
+  case pCommit fd checked =>
+    obtain ⟨hsz, rfl, hw⟩ := hL
+    obtain ⟨o, nd, h1, h2, h3, h4, h5⟩ := hw
+    have hsize : s.data1.length = s.size := rfl
+    have hfs : s.first = s.size - 1 := by simp [Src.first, Gen.CachePut.firstLen]
+    have hoffv : o.off = s.first := by
+      have := congrArg List.length h5
+      simp at this; omega
+    have hlast : lastByte s = (s.data1.drop o.off).take 1 := by simp only [lastByte, hg.2.2, hoffv]
+    obtain ⟨o', nd', g1, g2, rfl, rfl⟩ := write_spec he
+    rw [h1] at g1; cases g1
+    rw [h3] at g2; cases g2
+    have hpre : nd.data <+: s.data1 := hinv.2 _ _ _ (by simp) h2 h3 s.data1 hoff rfl
+    have hwp := writeAt_prefix (k := 1) hpre h4
+    rw [← hlast] at hwp
+    simp only [next, if_true, PostC, LocalC]
+    refine ⟨invp_setFd _ _ (invp_setData _ (hinv.exc _) h2 h3 (fileOKp_data hy hoff hwp.1)),
+      { o with off := o.off + (lastByte s).length }, ?_⟩
+    simp [FS.setFd]
+  case pClose fd =>
+    obtain ⟨o, h1⟩ := hL
+    obtain ⟨rfl, hsame⟩ := close_open_ok h1 he
+    exact ⟨hsame.invp hinv, by simp [next, PostC, LocalC]⟩
+  case pChtimes fd =>
+    have hsame := exec_chtimes_same (fault := .none) (by simpa [exec] using he)
+    exact ⟨hsame.invp hinv, by simp [next, PostC, LocalC]⟩
+  case pDeferClose fd ok =>
+    subst hL
+    have hsame := exec_close_same (fault := .none) (by simpa [exec] using he)
+    exact ⟨hsame.invp hinv, by simp [next, copyOk, Gen.CachePut.indexAfterCopy, PostC, LocalC]⟩
+  case iOpen =>
+    simp only [Op.id, Gen.CachePut.indexOpenCreate, Gen.CachePut.indexOpenTrunc] at he
+    obtain ⟨hinv', i, nd', rfl, hfd, hnm, hnd, _⟩ := open_create_specp hinv he
+    exact ⟨hinv', ⟨i, 0, proc⟩, hfd, rfl, hnm⟩
+  case iWrite fd =>
+    obtain ⟨o, h1, h2, h3⟩ := hL
+    obtain ⟨nd, h4, _⟩ := hinv.1.named _ _ h3
+    obtain ⟨o', nd', g1, g2, rfl, rfl⟩ := write_spec he
+    rw [h1] at g1; cases g1
+    rw [h4] at g2; cases g2
+    have e2 : (P.enc id (putOut P s) s.size now).length = Gen.CachePut.entrySize := hy.encLen id s.data1 now hoff
+    have hcover : writeAt nd.data o.off (P.enc id (putOut P s) s.size now) = P.enc id (putOut P s) s.size now := by
+      rw [h2]
+      apply writeAt_zero_cover
+      rcases hinv.2 _ _ _ (by simp) h3 h4 with h | ⟨c, t, hc, h⟩
+      · simp [h]
+      · rw [h, hy.encLen id c t hc, e2]; exact Nat.le_refl _
+    simp only [next, Gen.CachePut.indexTruncAfterWrite, if_true, PostC, LocalC, hcover]
+    refine ⟨invp_setFd _ _ (invp_setData _ (hinv.exc _) h3 h4 (Or.inr ⟨s.data1, now, hoff, rfl⟩)),
+      { o with off := o.off + (P.enc id (putOut P s) s.size now).length },
+      { nd with data := P.enc id (putOut P s) s.size now }, by simp [FS.setFd], ?_, ?_, e2⟩
+    · simpa [FS.setFd, FS.setInode] using h3
+    · simp [FS.setFd, FS.setInode]
+  case iTrunc fd =>
+    obtain ⟨o, nd, h1, h2, h3, h4⟩ := hL
+    obtain ⟨o', nd', g1, g2, rfl, rfl⟩ := ftruncate_spec he
+    rw [h1] at g1; cases g1
+    rw [h3] at g2; cases g2
+    have e2 : (P.enc id (putOut P s) s.size now).length = Gen.CachePut.entrySize := hy.encLen id s.data1 now hoff
+    have hsame : truncTo nd.data (P.enc id (putOut P s) s.size now).length = nd.data := by
+      rw [e2, ← h4, truncTo_self]
+    simp only [next, PostC, LocalC, hsame]
+    refine ⟨invp_setData _ (hinv.exc _) h2 h3 (hinv.2 _ _ _ (by simp) h2 h3), trivial, o, ?_⟩
+    simpa [FS.setInode] using h1
+  case iClose fd err =>
+    obtain ⟨rfl, o, h1⟩ := hL
+    obtain ⟨rfl, hsame⟩ := close_open_ok h1 he
+    exact ⟨hsame.invp hinv, by simp [next, PostC, LocalC]⟩
+  case iChtimes =>
+    have hsame := exec_chtimes_same (fault := .none) (by simpa [exec] using he)
+    exact ⟨hsame.invp hinv, by simp [next, indexOk, Gen.CachePut.indexAfterCopy, PostC]⟩
+  all_goals exact hL.elim
+
+/-! ## non-interference: what a fault-free step of a well-behaved task does to the others -/
+
+def fdOf : PC Hsh → Option Nat
+  | .pCkRead fd _ _ => some fd | .pCkClose fd _ _ => some fd | .pWrite fd _ => some fd | .pCommit fd _ => some fd
+  | .pTrunc0 fd => some fd | .pClose fd => some fd | .pRemoveData fd => some fd | .pChtimes fd => some fd
+  | .pDeferClose fd _ => some fd | .iWrite fd => some fd | .iTrunc fd => some fd | .iClose fd _ => some fd
+  | .gRead fd _ => some fd | .gUsedStat fd _ => some fd | .gUsedChtimes fd _ => some fd | .gClose fd _ => some fd
+  | .bRead fd _ _ => some fd | .bClose fd _ _ => some fd
+  | _ => none
+
+def sysFd : Sys Id Hsh → Option Nat
+  | .read fd _ => some fd | .write fd _ => some fd | .ftruncate fd _ => some fd | .close fd => some fd
+  | _ => none
+
+/-- names stay, files do not shrink, the descriptors of the others are not touched. -/
+structure Mono (fs fs' : FS Id Hsh) (f : Option Nat) : Prop where
+  names : ∀ p i, fs.names p = some i → fs'.names p = some i
+  inodes : ∀ i nd, fs.inodes i = some nd → ∃ nd', fs'.inodes i = some nd' ∧ nd.data.length ≤ nd'.data.length
+  fds : ∀ fd, some fd ≠ f → fd < fs.nextFd → fs'.fds fd = fs.fds fd
+  nextFd : fs.nextFd ≤ fs'.nextFd
+
+/-- system calls that do not remove, truncate or shrink anything. -/
+def SafeSys (fs : FS Id Hsh) : Sys Id Hsh → Prop
+  | .unlink _ => False
+  | .open _ _ _ trunc => trunc = false
+  | .ftruncate fd k => ∀ o nd, fs.fds fd = some o → fs.inodes o.ino = some nd → nd.data.length ≤ k
+  | _ => True
+
+theorem SameFiles.mono (h : SameFiles fs fs') (f : Option Nat)
+    (hfds : ∀ fd, some fd ≠ f → fd < fs.nextFd → fs'.fds fd = fs.fds fd) (hn : fs.nextFd ≤ fs'.nextFd) : Mono fs fs' f :=
+  ⟨fun p i hp => by rw [h.1]; exact hp, fun i nd hi => ⟨nd, by rw [h.2.1]; exact hi, Nat.le_refl _⟩, hfds, hn⟩
+
+theorem writeAt_length_ge (d : Bytes) (off : Nat) (bs : Bytes) : d.length ≤ (writeAt d off bs).length := by
+  unfold writeAt
+  split
+  · exact Nat.le_refl _
+  · simp; omega
+
+theorem exec_mono (hst : Struct fs) {sys : Sys Id Hsh} (he : execOk fs proc sys = some (fs', r)) (hsafe : SafeSys fs sys) :
+    Mono fs fs' (sysFd sys) := by
+  cases sys <;> simp only [SafeSys] at hsafe
+  case stat p =>
+    obtain ⟨rfl, _⟩ := stat_spec he
+    exact (SameFiles.refl _).mono _ (fun _ _ _ => rfl) (Nat.le_refl _)
+  case «open» p m create trunc =>
+    subst hsafe
+    simp only [execOk] at he
+    cases hnm : fs.names p with
+    | some i =>
+      cases hnd : fs.inodes i with
+      | none => simp [hnm, hnd] at he
+      | some nd =>
+        simp [hnm, hnd, FS.newFd] at he
+        obtain ⟨rfl, rfl⟩ := he
+        refine SameFiles.mono (by exact ⟨rfl, rfl, rfl⟩) _ (fun fd _ hlt => ?_) (Nat.le_succ _)
+        have : fd ≠ fs.nextFd := by omega
+        simp [this]
+    | none =>
+      cases create with
+      | false => simp [hnm] at he; obtain ⟨rfl, rfl⟩ := he; exact (SameFiles.refl _).mono _ (fun _ _ _ => rfl) (Nat.le_refl _)
+      | true =>
+        simp [hnm, FS.newFd] at he
+        obtain ⟨rfl, rfl⟩ := he
+        refine ⟨fun q i hq => ?_, fun i nd hi => ⟨nd, ?_, Nat.le_refl _⟩, fun fd _ hlt => ?_, Nat.le_succ _⟩
+        · have : q ≠ p := fun e => by rw [e, hnm] at hq; cases hq
+          simpa [this] using hq
+        · have : i ≠ fs.nextIno := fun e => by have := hst.bound i nd hi; omega
+          simpa [this] using hi
+        · have : fd ≠ fs.nextFd := by omega
+          simp [this]
+  case read fd k =>
+    have hsame := exec_read_same (fault := .none) (by simpa [exec] using he)
+    simp only [execOk] at he
+    refine hsame.mono _ (fun g hg _ => ?_) ?_
+    · have hne : g ≠ fd := fun e => hg (by simp [sysFd, e])
+      split at he
+      · simp at he
+      · split at he
+        · simp at he
+        · split at he
+          · simp at he; obtain ⟨rfl, _⟩ := he; rfl
+          · simp at he; obtain ⟨rfl, _⟩ := he; simp [FS.setFd, hne]
+    · split at he
+      · simp at he
+      · split at he
+        · simp at he
+        · split at he <;> (simp at he; obtain ⟨rfl, _⟩ := he; exact Nat.le_refl _)
+  case write fd bs =>
+    obtain ⟨o, nd, h1, h2, rfl, _⟩ := write_spec he
+    refine ⟨fun p i hp => hp, fun i nd' hi => ?_, fun g hg _ => ?_, Nat.le_refl _⟩
+    · by_cases hio : i = o.ino
+      · subst hio; rw [h2] at hi; cases hi
+        exact ⟨{ nd with data := writeAt nd.data o.off bs }, by simp [FS.setFd, FS.setInode], writeAt_length_ge _ _ _⟩
+      · exact ⟨nd', by simpa [FS.setFd, FS.setInode, hio] using hi, Nat.le_refl _⟩
+    · have hne : g ≠ fd := fun e => hg (by simp [sysFd, e])
+      simp [FS.setFd, FS.setInode, hne]
+  case ftruncate fd k =>
+    obtain ⟨o, nd, h1, h2, rfl, _⟩ := ftruncate_spec he
+    have hk := hsafe o nd h1 h2
+    refine ⟨fun p i hp => hp, fun i nd' hi => ?_, fun g _ _ => rfl, Nat.le_refl _⟩
+    by_cases hio : i = o.ino
+    · subst hio; rw [h2] at hi; cases hi
+      refine ⟨{ nd with data := truncTo nd.data k }, by simp [FS.setInode], ?_⟩
+      simp [truncTo]; omega
+    · exact ⟨nd', by simpa [FS.setInode, hio] using hi, Nat.le_refl _⟩
+  case close fd =>
+    have hsame := exec_close_same (fault := .none) (by simpa [exec] using he)
+    simp only [execOk] at he
+    refine hsame.mono _ (fun g hg _ => ?_) ?_
+    · have hne : g ≠ fd := fun e => hg (by simp [sysFd, e])
+      split at he <;> (simp at he; obtain ⟨rfl, _⟩ := he)
+      · rfl
+      · simp [FS.setFd, hne]
+    · split at he <;> (simp at he; obtain ⟨rfl, _⟩ := he; exact Nat.le_refl _)
+  case chtimes p =>
+    have hsame := exec_chtimes_same (fault := .none) (by simpa [exec] using he)
+    simp only [execOk] at he
+    refine hsame.mono _ (fun g _ _ => ?_) ?_
+    · split at he <;> (simp at he; obtain ⟨rfl, _⟩ := he; rfl)
+    · split at he <;> (simp at he; obtain ⟨rfl, _⟩ := he; exact Nat.le_refl _)
+
+/-- the local facts of a writer survive the steps of the others. -/
+theorem localC_mono (hy : Hyps P offered) (hoff : offered s.data1) {f : Option Nat} (hm : Mono fs fs' f)
+    (hinv : FSInvP P offered fs) (hinv' : FSInvP P offered fs') {pc : PC Hsh}
+    (hfd : ∀ g, fdOf pc = some g → some g ≠ f ∧ g < fs.nextFd) (hL : LocalC P id s fs pc) :
+    LocalC P id s fs' pc := by
+  have hw : ∀ fd rest, some fd ≠ f → fd < fs.nextFd → WStC P s fs fd rest → WStC P s fs' fd rest := by
+    intro fd rest h1 h2 ⟨o, nd, g1, g2, g3, g4, g5⟩
+    obtain ⟨nd', k1, k2⟩ := hm.inodes _ _ g3
+    have hp : nd.data <+: s.data1 := hinv.2 _ _ _ (by simp) g2 g3 s.data1 hoff rfl
+    have hp' : nd'.data <+: s.data1 := hinv'.2 _ _ _ (by simp) (hm.names _ _ g2) k1 s.data1 hoff rfl
+    refine ⟨o, nd', by rw [hm.fds fd h1 h2]; exact g1, hm.names _ _ g2, k1, by omega, ?_⟩
+    rw [← g5]; congr 1
+    rw [List.prefix_iff_eq_take.mp hp, List.prefix_iff_eq_take.mp hp']
+    simp only [List.take_take, List.length_take]
+    congr 1
+    have := prefix_length_le hp; have := prefix_length_le hp'
+    omega
+  cases pc <;> simp only [LocalC] at hL ⊢ <;> simp only [fdOf] at hfd <;> try exact hL
+  case pWrite fd rest => exact ⟨hL.1, hL.2.1, hw _ _ (hfd fd rfl).1 (hfd fd rfl).2 hL.2.2⟩
+  case pCommit fd ck => exact ⟨hL.1, hL.2.1, hw _ _ (hfd fd rfl).1 (hfd fd rfl).2 hL.2.2⟩
+  case pClose fd =>
+    obtain ⟨o, h⟩ := hL
+    exact ⟨o, by rw [hm.fds fd (hfd fd rfl).1 (hfd fd rfl).2]; exact h⟩
+  case iWrite fd =>
+    obtain ⟨o, h1, h2, h3⟩ := hL
+    exact ⟨o, by rw [hm.fds fd (hfd fd rfl).1 (hfd fd rfl).2]; exact h1, h2, hm.names _ _ h3⟩
+  case iTrunc fd =>
+    obtain ⟨o, nd, h1, h2, h3, h4⟩ := hL
+    obtain ⟨nd', k1, k2⟩ := hm.inodes _ _ h3
+    refine ⟨o, nd', by rw [hm.fds fd (hfd fd rfl).1 (hfd fd rfl).2]; exact h1, hm.names _ _ h2, k1, ?_⟩
+    rcases hinv'.2 _ _ _ (by simp) (hm.names _ _ h2) k1 with h0 | ⟨c, t, hc, hcd⟩
+    · rw [h0] at k2; simp [Gen.CachePut.entrySize] at h4 k2; rw [k2] at h4; simp at h4
+    · rw [hcd]; exact hy.encLen id c t hc
+  case iClose fd err =>
+    obtain ⟨he, o, h⟩ := hL
+    exact ⟨he, o, by rw [hm.fds fd (hfd fd rfl).1 (hfd fd rfl).2]; exact h⟩
+
+/-- the system calls of a fault-free writer never remove, truncate or shrink a file. -/
+theorem put_safe (hy : Hyps P offered) (hoff : offered s.data1) {pc : PC Hsh} (hL : LocalC P id s fs pc) :
+    SafeSys fs (sysOf P now n (.put id s) pc) := by
+  cases pc <;> simp only [LocalC] at hL <;> simp only [sysOf, SafeSys, Gen.CachePut.indexOpenTrunc]
+  case pOpen trunc => exact hL
+  case iTrunc fd =>
+    obtain ⟨o, nd, h1, h2, h3, h4⟩ := hL
+    intro o' nd' g1 g2
+    rw [h1] at g1; cases g1
+    rw [h3] at g2; cases g2
+    have e2 : (P.enc id (putOut P s) s.size now).length = Gen.CachePut.entrySize := hy.encLen id s.data1 now hoff
+    rw [e2, h4]; exact Nat.le_refl _
+  all_goals first | exact hL.elim | trivial
+
 end GIV.CachePut
